@@ -80,6 +80,21 @@ R_SCOPES = {
         "restricted": True,
     },
 }
+XSD_INTEGER = "http://www.w3.org/2001/XMLSchema#integer"
+XSD_BOOLEAN = "http://www.w3.org/2001/XMLSchema#boolean"
+R_SCOPES["r_falsy"] = {
+    # literals whose rdflib object is falsy in Python ("" / 0 / false), shared between statements
+    "triples": [
+        (AX, AP, L("")),
+        (AY, AP, L("")),
+        (AX, AP, L("0", None, XSD_INTEGER)),
+        (AY, AP, L("0", None, XSD_INTEGER)),
+        (AX, AY, L("false", None, XSD_BOOLEAN)),
+        (B("b"), AY, L("false", None, XSD_BOOLEAN)),
+    ],
+    "presets": [(8, 1, 2)] * 4,
+    "restricted": True,
+}
 GNAMES = [DEFAULT, I("http://a/x"), I("http://a/x"), B("x"), DEFAULT, I("http://b#x")]
 FRAME_SIZES = (1, 250)
 # (logical type kind, delimited)
